@@ -336,8 +336,11 @@ def gen_params(rng, n, feats):
         adv_seed=rng.randrange(1 << 30),
         flow=rng.choice([None, 0.04, 0.16]),
         # explicit contour accuracy on EVERY scale: span / (k - 0.5)
-        acck=rng.choice([None, None, [rng.choice([3, 8, 20]),
-                                      rng.choice([3, 8, 20])]]),
+        acck=rng.choice([None, [rng.choice([3, 8, 20]),
+                                rng.choice([3, 8, 20])]]),
+        # which of the two accuracies is explicit; the other one is not
+        # passed ("x", "y") or passed as 0 ("x0", "y0")
+        accmode=rng.choice(["both", "both", "x", "y", "x0", "y0"]),
         # kde_kwargs: bins of the histogram KDE, bandwidth span/k of the
         # multivariate KDE
         bins=rng.choice([None, None, [rng.choice([5, 7, 12]),
@@ -364,6 +367,15 @@ def derived_kwargs(par, xsel, ysel, xs, ys, kt):
     if par.get("acck") and sx > 0 and sy > 0:
         ckw = dict(xacc=sx / (par["acck"][0] - .5),
                    yacc=sy / (par["acck"][1] - .5))
+        mode = par.get("accmode", "both")
+        if mode in ("x", "x0"):
+            ckw.pop("yacc")
+            if mode == "x0":
+                ckw["yacc"] = 0
+        elif mode in ("y", "y0"):
+            ckw.pop("xacc")
+            if mode == "y0":
+                ckw["xacc"] = 0
     elif par.get("acc") is not None and xs == "linear" and ys == "linear":
         ckw = dict(xacc=par["acc"][0] / 8, yacc=par["acc"][1] / 8)
     if kt == "histogram" and par.get("bins"):
@@ -1060,13 +1072,10 @@ def check_reference(case, obs, mask):
                     # the spacing is computed per axis (own purge)
                     try:
                         with np.errstate(all="ignore"):
-                            if ckw:
-                                xa, ya = ckw["xacc"], ckw["yacc"]
-                            else:
-                                xa = ref_doane_width(
-                                    x1[np.isfinite(x1)]) / 5
-                                ya = ref_doane_width(
-                                    y1[np.isfinite(y1)]) / 5
+                            xa = ckw.get("xacc") or ref_doane_width(
+                                x1[np.isfinite(x1)]) / 5
+                            ya = ckw.get("yacc") or ref_doane_width(
+                                y1[np.isfinite(y1)]) / 5
                             nx = int(np.ceil(np.ptp(ex) / xa))
                             ny = int(np.ceil(np.ptp(ey) / ya))
                         okgrid = nx >= 1 and ny >= 1 and nx * ny < 10 ** 7
@@ -1107,12 +1116,20 @@ def check_reference(case, obs, mask):
                                  "the selected events (shape %s)" % (
                                      key, list(X.shape)))
                     continue
-                if ckw:
-                    # explicit accuracy: node distance <= accuracy (in the
-                    # scaled domain), and not finer than half of it
-                    for g, acc in ((lx[:, 0], ckw["xacc"]),
-                                   (ly[0, :], ckw["yacc"])):
-                        if g.size > 2 and not (
+                if kt != "none" or ckw:
+                    # the grid the request defines: node distance <= the
+                    # requested accuracy (in the scaled domain) and not
+                    # finer than half of it; an accuracy that is not given
+                    # (or 0) is a fifth of the Doane bin width of that axis
+                    with np.errstate(all="ignore"):
+                        accs = [ckw.get("xacc") or ref_doane_width(
+                                    x1[np.isfinite(x1)]) / 5,
+                                ckw.get("yacc") or ref_doane_width(
+                                    y1[np.isfinite(y1)]) / 5]
+                    for g, acc in ((lx[:, 0], accs[0]),
+                                   (ly[0, :], accs[1])):
+                        if g.size > 2 and np.isfinite(acc) and acc > 0 \
+                                and not (
                                 acc / 2.5 <= np.diff(g).max() <= acc * (
                                     1 + 1e-9) * g.size / (g.size - 1)):
                             fails.append(
@@ -2172,9 +2189,22 @@ def gen_cfake_case(rng):
                 xs[i][1] = min(max(xs[i][1], ax), bx)
             if ys[i][0] == 0:
                 ys[i][1] = min(max(ys[i][1], ay), by)
-    return dict(kind="cfake", n=n, xs=xs, ys=ys, mask=mask, kx=kx, ky=ky,
+    # each accuracy: explicit, None or 0; the default spacing (stand-in for
+    # bin_width_doane) yields kd nodes, so the range must be a multiple of
+    # (kd - 1) node distances on an axis that falls back to it
+    modes = [rng.choice(["k", "k", "none", "zero"]) for _ in range(2)]
+    case = dict(kind="cfake", n=n, xs=xs, ys=ys, mask=mask, kx=kx, ky=ky,
                 span=[bx - ax, by - ay], enable=(kind != "disabled"),
-                none=rng.random() < .15)
+                none=rng.random() < .15, modes=modes, kd=0)
+    if modes != ["k", "k"]:
+        kd = rng.choice([2, 3, 4])
+        ok = all(m == "k" or (sp % (kd - 1) == 0)
+                 for m, sp in zip(modes, case["span"]))
+        if ok:
+            case["kd"] = kd
+        else:
+            case["modes"] = ["k", "k"]
+    return case
 
 
 def cfake_impl(case):
@@ -2187,23 +2217,49 @@ def cfake_impl(case):
     ds.config["filtering"]["enable filters"] = bool(case["enable"])
     ds.apply_filter()
     kw = dict(xax="area_um", yax="deform", kde_type="veriffake",
-              xacc=case["span"][0] / 8 / (case["kx"] - .5),
-              yacc=case["span"][1] / 8 / (case["ky"] - .5),
               kde_kwargs=dict(unlog=(0, 0)))
+    modes = case.get("modes", ["k", "k"])
+    for name, mode, sp, k in (("xacc", modes[0], case["span"][0], case["kx"]),
+                              ("yacc", modes[1], case["span"][1],
+                               case["ky"])):
+        if mode == "k":
+            kw[name] = sp / 8 / (k - .5)
+        elif mode == "zero":
+            kw[name] = 0
+        # "none": the argument is not passed
     if case.get("none"):
         kw.update(kde_type="none", kde_kwargs=None)
+    from dclab import kde_methods
+    real = kde_methods.bin_width_doane
+    kd = case.get("kd", 0)
+
+    def fake_doane(a):
+        """stand-in spacing: (finite) range / (kd - 1/2), times 5"""
+        a = np.asarray(a, dtype=np.float64)
+        a = a[np.isfinite(a)]
+        return 5 * (a.max() - a.min()) / (kd - .5)
+    if kd:
+        kde_methods.bin_width_doane = fake_doane
     try:
         X, Y, Z = ds.get_kde_contour(**kw)
     except Exception:
         return [1]
+    finally:
+        kde_methods.bin_width_doane = real
     return [0, int(np.size(X))] + enc_floats(X) + enc_floats(Y) + \
         enc_floats(Z)
 
 
 def cfake_render(case):
-    return "(%s, %s, %s, %s, %d, %d, %s)" % (
+    modes = case.get("modes", ["k", "k"])
+
+    def opt(mode, k):
+        return {"k": "(Some %d)" % k, "zero": "(Some 0)",
+                "none": "None"}[mode]
+    return "(%s, %s, %s, %s, %s, %s, %d, %s)" % (
         common.blit(case["enable"]), common.blist(case["mask"]),
-        fvl(case["xs"]), fvl(case["ys"]), case["kx"], case["ky"],
+        fvl(case["xs"]), fvl(case["ys"]), opt(modes[0], case["kx"]),
+        opt(modes[1], case["ky"]), case.get("kd", 0) or 2,
         common.blit(case.get("none", False)))
 
 
